@@ -394,10 +394,9 @@ func (y *LeafList) setParent(p Meta) {
 	y.parent = p
 }
 
-var anyType = newType("any")
-
 type Any struct {
 	ident          string
+	dtype          *Type
 	desc           string
 	ref            string
 	parent         Meta
@@ -432,7 +431,7 @@ func (y *Any) setType(*Type) {
 }
 
 func (y *Any) Type() *Type {
-	return anyType
+	return y.dtype
 }
 
 func (y *Any) addDefault(string) {
